@@ -35,9 +35,9 @@ LEVEL = "model_checking"
 
 ACTIONS = ["AppendArticle", "AppendInChapter", "AppendChapter", "RemoveItem", "SwapItems", "ChangeRevision",
            "ChangeTitle", "WrapInChapter", "SetOptional", "ChangeWiki", "AppendCustom", "EditWikiConf", "EditLicense",
-           "EditSource", "PermuteKeys", "ChangeWhitespace", "ToggleAsciiEscape", "Reserialise"]
+           "EditSource", "PermuteKeys", "ChangeWhitespace", "ToggleAsciiEscape", "Reserialise", "SpellDefaults"]
 ALL_SEEDS = ["empty", "one", "two", "nested", "twochap", "kinds"]
-QUICK_SEEDS = ["empty", "two", "nested", "twochap", "kinds"]
+QUICK_SEEDS = ["empty", "two", "nested", "kinds"]
 WIKI_COMPONENTS = ["scheme", "user", "host", "port", "path", "seg", "ext", "login"]
 
 CFG = """INIT Init
@@ -47,7 +47,7 @@ CONSTANTS
   MaxArticles = %(maxart)d
   MaxChapters = %(maxchap)d
   Titles = {%(titles)s}
-  Revs = {"none", "r1", "r2"}
+  Revs = {"none", "zero", "r1", "r2"}
   SeedIds = {%(seeds)s}
   Emit = %(emit)s
   EmitPrefix = "@#"
@@ -108,7 +108,12 @@ def make_cz(seed):
 
 
 def C(cz, v):
-    return None if v == "none" else cz[v]
+    """value of an optional field: absent, present-but-falsy ("" / 0), ordinary"""
+    return None if v == "none" else "" if v == "empty" else 0 if v == "zero" else cz[v]
+
+
+VERSION = {"dflt": 1, "zero": 0, "v2": 2}
+CTYPE = {"dflt": "text/x-wiki", "empty": "", "c2": "text/html"}
 
 
 def base_url(w, cz):
@@ -126,14 +131,23 @@ def base_url(w, cz):
 
 
 def client_obj(st, cz):
-    """The metabook as a client would write it: plain dicts, lower-case type names, optional
-    fields only when present."""
+    """The metabook as a client would write it: plain dicts, lower-case type names.  With
+    rep.defaults = "omit" fields that are absent or have their default value are left out; with
+    "explicit" they are spelled out (default value, null for absent)."""
+    explicit = st["rep"].get("defaults") == "explicit"
+
+    def opt(d, key, v):
+        if v != "none":
+            d[key] = C(cz, v)
+        elif explicit:
+            d[key] = None
+
     def art(a):
-        d = {"type": "article", "title": cz[a["title"]], "content_type": "text/x-wiki"}
-        if a["rev"] != "none":
-            d["revision"] = cz[a["rev"]]
-        if a["dt"] != "none":
-            d["displaytitle"] = cz[a["dt"]]
+        d = {"type": "article", "title": cz[a["title"]]}
+        if a["ct"] != "dflt" or explicit:
+            d["content_type"] = CTYPE[a["ct"]]
+        opt(d, "revision", a["rev"])
+        opt(d, "displaytitle", a["dt"])
         return d
     mb = st["mb"]
     items = []
@@ -144,14 +158,16 @@ def client_obj(st, cz):
             items.append({"type": "custom", "title": cz[it["title"]], "content": cz[it["content"]]})
         else:
             items.append({"type": "chapter", "title": cz[it["title"]], "items": [art(a) for a in it["items"]]})
-    d = {"type": "collection", "version": 1, "title": cz[mb["title"]], "items": items}
-    if mb["subtitle"] != "none":
-        d["subtitle"] = cz[mb["subtitle"]]
-    if mb["editor"] != "none":
-        d["editor"] = cz[mb["editor"]]
-    if mb["wikis"]:
+    d = {"type": "collection", "title": cz[mb["title"]], "items": items}
+    if mb["version"] != "dflt" or explicit:
+        d["version"] = VERSION[mb["version"]]
+    if explicit:
+        d["summary"] = ""
+    opt(d, "subtitle", mb["subtitle"])
+    opt(d, "editor", mb["editor"])
+    if mb["wikis"] or explicit:
         d["wikis"] = [{"type": "wikiconf", "ident": cz[w["ident"]], "baseurl": cz[w["baseurl"]]} for w in mb["wikis"]]
-    if mb["licenses"]:
+    if mb["licenses"] or explicit:
         d["licenses"] = [{"type": "license", "title": cz[x["title"]], "wikitext": cz[x["wikitext"]]} for x in mb["licenses"]]
     for src in mb["source"]:
         sd = {"type": "source", "name": cz[src["name"]], "language": cz[src["lang"]]}
@@ -217,20 +233,25 @@ def build_api(st, cz, M):
     c = mbm.Collection()
     c.title = cz[mb["title"]]
     if mb["subtitle"] != "none":
-        c.subtitle = cz[mb["subtitle"]]
+        c.subtitle = C(cz, mb["subtitle"])
     if mb["editor"] != "none":
-        c.editor = cz[mb["editor"]]
+        c.editor = C(cz, mb["editor"])
+    if mb["version"] != "dflt":
+        c.version = VERSION[mb["version"]]
+
+    def kw(a):
+        return {} if a["ct"] == "dflt" else {"content_type": CTYPE[a["ct"]]}
     for it in mb["items"]:
         if it["k"] == "c":
             c.items.append(mbm.Chapter(title=cz[it["title"]]))
             for a in it["items"]:          # the last item is a chapter: append_article goes into it
-                c.append_article(cz[a["title"]], C(cz, a["dt"]), revision=C(cz, a["rev"]))
+                c.append_article(cz[a["title"]], C(cz, a["dt"]), revision=C(cz, a["rev"]), **kw(a))
         elif it["k"] == "x":
             c.items.append(mbm.Custom(title=cz[it["title"]], content=cz[it["content"]]))
         elif c.items and isinstance(c.items[-1], mbm.Chapter):
-            c.items.append(mbm.Article(title=cz[it["title"]], displaytitle=C(cz, it["dt"]), revision=C(cz, it["rev"])))
+            c.items.append(mbm.Article(title=cz[it["title"]], displaytitle=C(cz, it["dt"]), revision=C(cz, it["rev"]), **kw(it)))
         else:
-            c.append_article(cz[it["title"]], C(cz, it["dt"]), revision=C(cz, it["rev"]))
+            c.append_article(cz[it["title"]], C(cz, it["dt"]), revision=C(cz, it["rev"]), **kw(it))
     for w in mb["wikis"]:
         c.wikis.append(mbm.WikiConf(ident=cz[w["ident"]], baseurl=cz[w["baseurl"]]))
     for x in mb["licenses"]:
@@ -249,13 +270,25 @@ def project(c, inv, M):
     mbm = M["metabook"]
 
     def nm(v):
-        return "none" if v is None else inv.get(v, "?%r" % (v,)) if isinstance(v, str) else "?%r" % (v,)
+        if v is None:
+            return "none"
+        if type(v) is int and v == 0:
+            return "zero"
+        if v == "":
+            return "empty"
+        return inv.get(v, "?%r" % (v,)) if isinstance(v, str) else "?%r" % (v,)
+
+    def pick(table, v):
+        for k, x in table.items():
+            if type(x) is type(v) and x == v:
+                return k
+        return "?%r" % (v,)
 
     def wrong(o):
         return {"k": "?" + type(o).__name__}
 
     def art(a):
-        return {"k": "a", "title": nm(a.title), "rev": nm(a.revision), "dt": nm(a.displaytitle)}
+        return {"k": "a", "title": nm(a.title), "rev": nm(a.revision), "dt": nm(a.displaytitle), "ct": pick(CTYPE, a.content_type)}
     if type(c) is not mbm.Collection:
         return wrong(c)
     items = []
@@ -286,7 +319,7 @@ def project(c, inv, M):
                 iw = "?%r" % (iwm,)
             source.append({"name": nm(so.name), "lang": nm(so.language), "iw": iw})
     return {"title": nm(c.title), "items": items, "subtitle": nm(c.subtitle), "editor": nm(c.editor),
-            "wikis": wikis, "licenses": lics, "source": source}
+            "version": pick(VERSION, c.version), "wikis": wikis, "licenses": lics, "source": source}
 
 
 def same_classes(x, y, M, path="obj"):
